@@ -58,10 +58,12 @@ def parseCall : List String → Option Call
   | "renameatt" :: v :: nb :: ex :: iu :: ol :: nl :: _ => some (.renameAtt (pv v) (pb nb) (pb ex) (pb iu) ol.toNat! nl.toNat!)
   | ["renamevar", v, nb, iu, ol, nl] => some (.renameVar (pv v) (pb nb) (pb iu) ol.toNat! nl.toNat!)
   | ["renamedim", nb, db, iu, ol, nl] => some (.renameDim (pb nb) (pb db) (pb iu) ol.toNat! nl.toNat!)
-  | "rw" :: p :: c :: v :: t :: cb :: fl => some (.rw (pb p) (pb c) (pv v) (pb t) (pb cb) (fl == ["varn"]))
-  | "post" :: k :: v :: t :: cb :: _ =>
+  -- rw isPut coll v text coordBad flavour [z]   (z: the zero-length form of that flavour)
+  | "rw" :: p :: c :: v :: t :: cb :: fl :: z => some (.rw (pb p) (pb c) (pv v) (pb t) (pb cb) (fl == "varn") (z == ["z"]))
+  | ["rw", p, c, v, t, cb] => some (.rw (pb p) (pb c) (pv v) (pb t) (pb cb) false false)
+  | "post" :: k :: v :: t :: cb :: fl =>
     let kind := if k == "iput" then PostKind.iput else if k == "iget" then PostKind.iget else PostKind.bput
-    some (.post kind (pv v) (pb t) (pb cb))
+    some (.post kind (pv v) (pb t) (pb cb) (fl.head? == some "varn") (fl.drop 1 == ["z"]))
   | ["wait", c, z] => some (.wait (pb c) (pb z))
   | ["cancel", z] => some (.cancel (pb z))
   | ["sync"] => some .sync
